@@ -237,7 +237,54 @@ def D18():
     print("D18", "DEFECT" if os.path.exists(path) else "OK", "pid file left after unlink():", os.path.exists(path))
 
 
-ALL = {"D18": D18, "D14": D14, "D15": D15, "D16": D16, "D17": D17, "D1": D1, "D2": D2, "D3": D3, "D4": D4, "D5": D5_D6, "D6": D5_D6, "D7": D7, "D8": D8, "D9": D9, "D10": D10, "D11": D11, "D12": D12, "D13": D13}
+def D19():
+    """a re-exec that fails in the forked child (pre_exec hook raises) must leave the old master serving"""
+    import shutil, signal, socket, subprocess, tempfile, time
+    root = os.environ.get("GVERIF_REPO", "/repo")
+    d = tempfile.mkdtemp(prefix="d19-")
+    sockp, pidp = os.path.join(d, "g.sock"), os.path.join(d, "g.pid")
+    open(os.path.join(d, "app.py"), "w").write("def app(environ, start_response):\n    start_response('200 OK', [('Content-Length', '2')])\n    return [b'ok']\n")
+    open(os.path.join(d, "conf.py"), "w").write("def pre_exec(server):\n    raise RuntimeError('new binary is not usable')\n")
+    env = dict(os.environ, PYTHONPATH=root + os.pathsep + d)
+    p = subprocess.Popen([sys.executable, "-m", "gunicorn", "-b", "unix:" + sockp, "-p", pidp, "-w", "1", "-c", os.path.join(d, "conf.py"), "--chdir", d, "app:app"],
+                         env=env, stdout=subprocess.DEVNULL, stderr=subprocess.DEVNULL)
+
+    def get():
+        s_ = socket.socket(socket.AF_UNIX)
+        s_.settimeout(3)
+        s_.connect(sockp)
+        s_.sendall(b"GET / HTTP/1.0\r\n\r\n")
+        data = b""
+        while True:
+            b = s_.recv(4096)
+            if not b:
+                break
+            data += b
+        return data
+    try:
+        for _ in range(100):
+            if os.path.exists(sockp) and os.path.exists(pidp):
+                break
+            time.sleep(0.1)
+        get()
+        os.kill(p.pid, signal.SIGUSR2)
+        time.sleep(3.0)
+        alive, se, pe = p.poll() is None, os.path.exists(sockp), os.path.exists(pidp)
+        try:
+            ans = b"200 OK" in get()
+        except Exception:
+            ans = False
+        print("D19", "OK" if (alive and se and pe and ans) else "DEFECT", "after a failed USR2 re-exec: old master alive=%s, socket file=%s, pid file=%s, request answered=%s" % (alive, se, pe, ans))
+    finally:
+        try:
+            p.terminate()
+            p.wait(5)
+        except Exception:
+            p.kill()
+        shutil.rmtree(d, ignore_errors=True)
+
+
+ALL = {"D19": D19, "D18": D18, "D14": D14, "D15": D15, "D16": D16, "D17": D17, "D1": D1, "D2": D2, "D3": D3, "D4": D4, "D5": D5_D6, "D6": D5_D6, "D7": D7, "D8": D8, "D9": D9, "D10": D10, "D11": D11, "D12": D12, "D13": D13}
 
 if __name__ == "__main__":
     want = sys.argv[1:] or ["D1", "D2", "D3", "D4", "D5", "D7", "D8", "D9", "D10", "D11", "D12", "D13"]
